@@ -504,8 +504,8 @@ pub fn do_navigate_command_string(mathml: Element, nav_command: &'static str) ->
 
     fn pop_stack(nav_state: &mut NavigationState, count: usize) {
         // save the final state and pop the intermediate states that did nothing
-        if count == 0 {
-            return;
+        if count == 0 || nav_state.position_stack.len() < 2 {
+            return;     // no intermediate states
         }
 
         let (top_position, top_command) = nav_state.pop().unwrap();
